@@ -124,6 +124,13 @@ impl Serializable for P256Point {
             .ok_or_else(|| {
                 CryptoCoreError::GenericDeserializationError("cannot deserialize point".to_string())
             })?;
+        // Only the encoding produced by `write` is accepted: other SEC1 encodings of the same
+        // point (e.g. the compact one) would make serialized objects malleable.
+        if point.to_bytes()[..] != bytes[..] {
+            return Err(CryptoCoreError::GenericDeserializationError(
+                "non-canonical point encoding".to_string(),
+            ));
+        }
         Ok(Self(point))
     }
 }
